@@ -65,13 +65,16 @@ def make_recipe(rng, tier, which=None):
     return {"det": spec, "X": X, "data_kind": kind, "int_dtype": int_dtype}
 
 
-def penalties(det, name, n, p):
+def penalties(det, name, n, p, det_spec=None):
     from skchange.anomaly_detectors.mvcapa import capa_penalty_factory
 
     if name == "CAPA":
         return (float(det.collective_penalty_), np.zeros(1)), (float(det.point_penalty_), np.zeros(1))
-    kc = det._collective_saving.get_param_size(1)
-    kp = det._point_saving.get_param_size(1)
+    from skchange.anomaly_scores import L2Saving, to_saving
+
+    cs, ps = build(det_spec["kw"].get("collective_saving")), build(det_spec["kw"].get("point_saving"))
+    kc = to_saving(L2Saving() if cs is None else cs).get_param_size(1)
+    kp = to_saving(L2Saving() if ps is None else ps).get_param_size(1)
     a, b = capa_penalty_factory(det.collective_penalty)(n, p, kc, scale=det.collective_penalty_scale)
     a2, b2 = capa_penalty_factory(det.point_penalty)(n, p, kp, scale=det.point_penalty_scale)
     return (float(a), np.asarray(b, dtype=float)), (float(a2), np.asarray(b2, dtype=float))
@@ -131,7 +134,7 @@ def exec_case(ctx, r):
         return
     trace = I.stop_trace()
     try:
-        pen_c, pen_p = penalties(det, name, n, p)
+        pen_c, pen_p = penalties(det, name, n, p, spec)
         coll, point = saving_tables(spec, Xf, m, M)
     except Exception as ex:
         ctx.stat(f"oracle_unavailable[{type(ex).__name__}]")
